@@ -158,6 +158,8 @@ func TestReplay(t *testing.T) {
 		case "mapping-index":
 			p := &vkit.Picks{List: c.Picks}
 			reportIndex(t, c, runIndexProg(c, p.Choose))
+		case "mapping-quota-history":
+			runMapHistory(t, nil, c)
 		case "code-quota-history":
 			runHistory(t, nil, c)
 		case "code-quota", "mapping-quota":
